@@ -1,11 +1,16 @@
 // ===== quantile.rs under contract =====
-// macro-generated `From<Interval<f64>> for (f64, f64)` (impl_for_floats!): invisible to the extractor, re-stated (trusted here,
-// decided by the Kani harness c14_float_projections)
-#[verifier::external_body]
-pub fn interval_into_pair(i: Interval<R>) -> (r: (R, R))
-    ensures i is TwoSided ==> r.0 == i->TwoSided_0 && r.1 == i->TwoSided_1,
-{ unimplemented!() }
-
+// macro-generated `From<Interval<f64>> for (f64, f64)` (impl_for_floats!): the invocation is expanded at check time (rule M1) and the
+// generated impl verified like any other; one-sided intervals project their missing side to an unspecified "infinite" value
+//@impl src/interval.rs!impl_for_floats(f64) impl From<Interval<f64>> for (f64, f64)
+//@fn from ret r
+//@| ensures value is TwoSided ==> r.0 == value->TwoSided_0 && r.1 == value->TwoSided_1,
+//@|         value is UpperOneSided ==> r.0 == value->UpperOneSided_0,
+//@|         value is LowerOneSided ==> r.1 == value->LowerOneSided_0,
+//@endimpl
+impl vstd::std_specs::convert::FromSpecImpl<Interval<R>> for (R, R) {
+    open spec fn obeys_from_spec() -> bool { false }
+    open spec fn from_spec(value: Interval<R>) -> Self { arbitrary() }
+}
 //@item src/quantile.rs struct Stats derive=Clone,Copy expect_derive=Default
 impl Stats { pub closed spec fn pop(self) -> usize { self.population } }
 // #[derive(Default)] restated
@@ -16,7 +21,7 @@ impl Default for Stats { fn default() -> (r: Self) ensures r.pop() == 0 { Stats 
 //@fn index ret r
 //@| ensures r == index_spec(self.pop(), quantile.v(), quantile),
 //@fn ci ret r
-//@subst "proportion_ci.into()" => "interval_into_pair(proportion_ci)"
+//@subst "proportion_ci.into()" => "<(R, R)>::from(proportion_ci)"
 //@| requires conf_valid(confidence),
 //@| ensures r == qci_spec(confidence, self.pop(), quantile),
 //@endimpl
